@@ -157,8 +157,17 @@ fn case_impl(t0: &mut Tape, w: &Worker, exhaustive: bool) -> CaseResult {
             ..Default::default()
         },
     );
-    let corrupted = ot.chance(2, 3);
-    if corrupted {
+    // a sixth of the sampled cases: a well-framed stream with arbitrary payloads of up to 10 000 bytes instead (cuts far
+    // from the end of a large payload, with the payload loaded or skipped)
+    let large_payloads = !exhaustive && ot.chance(1, 6);
+    if large_payloads {
+        let (fs, _) = gen::gen_frame_stream(t0, &gen::FrameOpts { max_packets: 24, word_payload: false, max_payload: 10_000, valid_layers: true, its_first: true, all_rdh0_valid: true });
+        cs.stream = fs;
+        out.labels.push("stream:large_raw_payloads".into());
+    }
+    let corrupted = !large_payloads && ot.chance(2, 3);
+    if large_payloads {
+    } else if corrupted {
         let mut mt = t0.fork(300);
         let n = 1 + mt.below(8);
         gen::mutate_stream(&mut mt, &mut cs.stream, &MutOpts { protect_first: true, keep_framing: true, keep_layout: true }, n, &mut vec![]);
@@ -172,7 +181,12 @@ fn case_impl(t0: &mut Tape, w: &Worker, exhaustive: bool) -> CaseResult {
         return Ok(out);
     }
     // modes that load the payload and modes that skip it (seek on a file, read-and-discard on a pipe)
-    let mode = *ot.pick(&[TMode::Sanity, TMode::All, TMode::SanityIts, TMode::AllIts, TMode::AllItsStave, TMode::ViewRdh, TMode::ViewData]);
+    let mut mode = *ot.pick(&[TMode::Sanity, TMode::All, TMode::SanityIts, TMode::AllIts, TMode::AllItsStave, TMode::ViewRdh, TMode::ViewData]);
+    if large_payloads {
+        // arbitrary payload bytes do not follow the layout the header announces, so word offsets of different links can
+        // coincide and their order is then a matter of scheduling: this class is run in the modes that skip the payload
+        mode = *ot.pick(&[TMode::Sanity, TMode::All, TMode::ViewRdh]);
+    }
     let stdin = ot.chance(1, 2);
     let rdhs = rdhs_of(&cs.stream, &lay);
     let filter = if ot.chance(1, 3) { Filter::Link(rdhs[ot.below(rdhs.len())].link_id) } else { Filter::None };
